@@ -40,6 +40,7 @@ type GossipMsg struct {
 // Cluster owns the nodes, the clients, the virtual clock, the gossip in flight and the
 // fault plan.
 type Cluster struct {
+	stuck   string // set when a node did not return from a merge (see DeliverGossip)
 	Clock   Clock
 	Nodes   []*Node
 	Clients []*Client
@@ -204,8 +205,25 @@ func (cl *Cluster) DeliverGossip(i int, to *Node) {
 		// arrive after the survivors have been told about the failure
 		return
 	}
-	to.State.Distributor().NotifyMsg(g.Msg)
 	g.Sent[to.ID]++
+	// the merge runs on memberlist's packet goroutine in the broker; here on a goroutine of its
+	// own, so that a node that never returns from a merge (a lock that is never released) is a
+	// verdict of Settle ("stalled") and not a hang of the harness
+	done := make(chan struct{})
+	msg := g.Msg
+	go func() {
+		defer close(done)
+		to.State.Distributor().NotifyMsg(msg)
+	}()
+	select {
+	case <-done:
+	case <-time.After(15 * time.Second):
+		cl.mu.Lock()
+		if cl.stuck == "" {
+			cl.stuck = fmt.Sprintf("node %s has not returned from merging a broadcast for 15 s", to.Name)
+		}
+		cl.mu.Unlock()
+	}
 	atomic.AddInt64(&cl.activity, 1)
 }
 
@@ -341,6 +359,12 @@ func (cl *Cluster) quiet() (ok bool, why string) {
 
 // Settle runs clients and (optionally) gossip until nothing moves any more.
 func (cl *Cluster) Settle() error {
+	cl.mu.Lock()
+	stuck := cl.stuck
+	cl.mu.Unlock()
+	if stuck != "" {
+		return fmt.Errorf("%w (%s)", ErrStalled, stuck)
+	}
 	deadline := time.Now().Add(cl.SettleBudget)
 	stable := 0
 	last := int64(-1)
@@ -360,6 +384,12 @@ func (cl *Cluster) Settle() error {
 			}
 		} else if cl.CollectGossip() > 0 {
 			progressed = true
+		}
+		cl.mu.Lock()
+		stuck = cl.stuck
+		cl.mu.Unlock()
+		if stuck != "" {
+			return fmt.Errorf("%w (%s)", ErrStalled, stuck)
 		}
 		var ok bool
 		ok, why = cl.quiet()
